@@ -4,13 +4,14 @@ import json, glob, os
 rows = []
 for f in sorted(glob.glob('/verif/seeded/*/meta.json')):
     m = json.load(open(f))
-    cid = m['property']
+    cid = os.path.basename(os.path.dirname(f))
+    if cid.startswith('_'): continue
     tests_ok = all(v.get('passes') for v in m.get('existing_tests_with_change', {}).values()) if m.get('existing_tests_with_change') else None
     dw = m.get('demo_with_change', {}).get('exit'); dwo = m.get('demo_without_change', {}).get('exit')
     c = m.get('check', {})
     sigs = ', '.join(sorted({v['signature'] for v in c.get('violations', [])}))[:110]
     det = 'yes' if c.get('detected') else ('NO' if c.get('built') else 'build failed')
-    rows.append(f"| {cid} | {', '.join(m.get('files_changed', []))[:70]} | {m.get('needs', m.get('summary', ''))[:120]} | {'pass' if tests_ok else 'FAIL' if tests_ok is False else '?'} | {dw}/{dwo} | {det} ({c.get('tier','')}, {c.get('wall_s','')} s) | `{sigs}` |")
+    rows.append(f"| {cid} | {', '.join(m.get('files_changed', []))[:70]} | {m.get('needs', m.get('summary', '')).replace('|','/')[:220]} | {'pass' if tests_ok else 'FAIL' if tests_ok is False else '?'} | {dw}/{dwo} | {det} ({c.get('tier','')}, {c.get('wall_s','')} s) | `{sigs}` |")
 print('| Property | Files changed | What it needs to manifest | crate tests with change | demo exit with/without | caught by `./check` | signature(s) |')
 print('|---|---|---|---|---|---|---|')
 print('\n'.join(rows))
